@@ -127,6 +127,10 @@ def _theory_apps(top, AXIOMS):
     hit = _THEORY_APPS.get(top.get_id())
     if hit is not None:
         return hit[1]
+    # cheap pre-filter on the printed term (C level): most ground instances mention no axiomatised function
+    txt = top.sexpr()
+    if "(pow " not in txt and not any(("(" + nm + " ") in txt for nm in AXIOMS):
+        return ()
     found = []
     seen = set()
     stack = [top]
@@ -539,10 +543,19 @@ def prove(hyps, qfacts, goal, extra_pool=(), timeout_ms=None, want_model=True,
         # second back end on the same text
         smt2 = s.to_smt2()
         r2 = run_cvc5(smt2.replace("(check-sat)", ""))
+        if r2 == "unsat":
+            dt = time.time() - t0
+            STATS.solver_time += dt
+            return "unsat", "cvc5", dt, None, None
+        # neither solver decided it: look for a counter-model by sampling (refutes e.g. a false equality
+        # between large nonlinear terms, where the solvers' model search gives up)
+        m = sample_refute(base, ground, min(timeout_ms, 10000))
         dt = time.time() - t0
         STATS.solver_time += dt
-        if r2 == "unsat":
-            return "unsat", "cvc5", dt, None, None
+        if m is not None:
+            if not qfacts or _model_satisfies(m, qfacts):
+                return "sat", "z3-sampled", dt, m, smt2
+            return "unknown", "z3-sampled-candidate", dt, m, smt2
         return "unknown", "z3+cvc5", dt, None, smt2
     # sat
     if not qfacts:
@@ -566,7 +579,78 @@ def prove(hyps, qfacts, goal, extra_pool=(), timeout_ms=None, want_model=True,
         return "unsat", "z3-quant", dt, None, None
     if r == z3.sat:
         return "sat", "z3-quant", dt, s2.model(), s2.to_smt2()
-    return "unknown", "z3-quant", dt, s.model(), s.to_smt2()
+    # MBQI gave up: accept the ground model if every quantified hypothesis evaluates to true in it
+    try:
+        gm = s.model()
+        if _model_satisfies(gm, qfacts):
+            return "sat", "z3-ground-validated", dt, gm, s.to_smt2()
+    except z3.Z3Exception:
+        gm = None
+    return "unknown", "z3-quant", dt, gm, s.to_smt2()
+
+
+def _model_satisfies(m, qfacts):
+    """does the (completed) model make every quantified hypothesis true?  Only a definite `true`
+    from the evaluator counts."""
+    for i, q in enumerate(qfacts):
+        try:
+            v = m.eval(q.as_forall(f"ms{i}"), model_completion=True)
+        except z3.Z3Exception:
+            return False
+        if not z3.is_true(v):
+            return False
+    return True
+
+
+def sample_refute(base, ground, timeout_ms=8000, tries=4):
+    """Counter-model search by sampling: fix random values for the uninterpreted leaf terms of the
+    (negated) goal as SOFT constraints, keep every hypothesis hard, and let the solver complete the
+    rest.  Returns a model of base+ground (so of hyps /\ not goal, at ground level) or None."""
+    import random
+
+    rnd = random.Random(12345)
+    goal_neg = base[-1]
+    leaves = []
+    seen = set()
+    stack = [goal_neg]
+    while stack and len(leaves) < 400:
+        e = stack.pop()
+        if e.get_id() in seen:
+            continue
+        seen.add(e.get_id())
+        if z3.is_quantifier(e):
+            continue
+        if z3.is_app(e):
+            k = e.decl().kind()
+            if k == z3.Z3_OP_UNINTERPRETED and str(e.sort()) in ("Real", "Int", "Bool"):
+                leaves.append(e)
+                continue  # maximal leaves only
+            stack.extend(e.children())
+    if not leaves:
+        return None
+    for _t in range(tries):
+        opt = z3.Optimize()
+        opt.set("timeout", int(timeout_ms))
+        for h in base:
+            opt.add(h)
+        for g in ground:
+            opt.add(g)
+        for lf in leaves:
+            srt = str(lf.sort())
+            if srt == "Real":
+                v = z3.RealVal(f"{rnd.randint(-12, 12)}/{rnd.choice((1, 2, 3, 4))}")
+                opt.add_soft(lf == v)
+            elif srt == "Int":
+                opt.add_soft(lf == z3.IntVal(rnd.randint(0, 3)))
+            else:
+                opt.add_soft(lf if rnd.random() < 0.5 else z3.Not(lf))
+        try:
+            r = opt.check()
+        except z3.Z3Exception:
+            return None
+        if r == z3.sat:
+            return opt.model()
+    return None
 
 
 def feasible(hyps, timeout_ms=None):
